@@ -222,7 +222,12 @@ impl<'tcx> Visitor<'tcx> for BodyFacts<'tcx> {
             TerminatorKind::Assert { msg, .. } => {
                 let kind = match &**msg {
                     mir::AssertKind::BoundsCheck { .. } => "bounds",
-                    mir::AssertKind::Overflow(..) => "overflow",
+                    mir::AssertKind::Overflow(op, ..) => match op {
+                        mir::BinOp::Sub | mir::BinOp::SubWithOverflow | mir::BinOp::SubUnchecked => "overflow_sub",
+                        mir::BinOp::Add | mir::BinOp::AddWithOverflow | mir::BinOp::AddUnchecked => "overflow_add",
+                        mir::BinOp::Mul | mir::BinOp::MulWithOverflow | mir::BinOp::MulUnchecked => "overflow_mul",
+                        _ => "overflow",
+                    },
                     mir::AssertKind::OverflowNeg(..) => "overflow_neg",
                     mir::AssertKind::DivisionByZero(..) => "div_zero",
                     mir::AssertKind::RemainderByZero(..) => "rem_zero",
